@@ -4,7 +4,7 @@
    regenerated from /repo/docs/schema.json and /repo/src/_griffe/enumerations.py on every run.
    Executable definitions only. *)
 From Coq Require Import List ZArith String Ascii Bool Arith.
-From Verif Require Import Lib.Sexp Model.C09_json Gen.C09_schema.
+From Verif Require Import Lib.Sexp Model.C09_json Gen.C09_schema Gen.C09_exprs Model.C09_expr.
 Import ListNotations.
 Open Scope string_scope.
 Open Scope list_scope.
@@ -13,14 +13,26 @@ Open Scope nat_scope.
 (* ---------- the object tree as far as serialisation looks at it ---------- *)
 
 (* `str | Expr | None` fields. An expression is serialised by expressions._expr_as_dict into an object
-   (`cls` + dataclass fields); its contents are opaque here (the schema says: any object). *)
-Inductive aval := ANone | AStr (s : string) | AExpr (fields : list (string * json)).
+   (the class's dataclass fields, then `cls`): Model/C09_expr.v. *)
+Inductive aval :=
+| ANone | AStr (s : string) | AExpr (cls : string) (vals : list fval)
+(* what only the inspector lets through (known finding C09-F8): `parameter.default.__name__` that is not a string --
+   another JSON-serialisable Python value, or an object json has no rule for *)
+| ARaw (j : json) | AObject.
 
 Record decorator := mkDeco { d_value : aval; d_lineno : option Z; d_endlineno : option Z }.
 
-(* DocstringSection.as_dict: value is a string (text), a list (of element dicts / example pairs), or one element dict
+(* docstrings/models.py: DocstringElement (annotation, description), DocstringNamedElement (name, annotation, description,
+   value when not None -- declared `str | None`, but a parameter's default expression ends up there too), an Examples pair
+   (kind, text) *)
+Inductive item :=
+| IPlain (annotation : aval) (description : string)
+| INamed (name : string) (annotation : aval) (description : string) (value : aval)
+| IExample (kind text : string).
+
+(* DocstringSection.as_dict: value is a string (text), a list (of elements / example pairs), or one element
    (deprecated, admonition: `self.value.as_dict()`). *)
-Inductive secvalue := SVText (s : string) | SVItems (l : list json) | SVElem (fields : list (string * json)).
+Inductive secvalue := SVText (s : string) | SVItems (l : list item) | SVElem (annotation : aval) (description : string).
 Record section := mkSection { sec_kind : string; sec_value : secvalue; sec_title : option string }.
 Record docstring := mkDoc { ds_value : string; ds_lineno : option Z; ds_endlineno : option Z; ds_parsed : list section }.
 
@@ -44,7 +56,11 @@ Inductive obj :=
 (* ---------- the encoder ---------- *)
 
 Definition enc_aval (a : aval) : json :=
-  match a with ANone => JNull | AStr s => JStr s | AExpr f => JObj f end.
+  match a with
+  | ANone => JNull | AStr s => JStr s | AExpr cls vals => enc_fval (FExpr cls vals)
+  | ARaw j => j
+  | AObject => JNull   (* never emitted: json.dumps raises TypeError, see `serialisable` *)
+  end.
 
 Definition enc_optz (o : option Z) : json := match o with Some z => JInt z | None => JNull end.
 Definition enc_optstr (o : option string) : json := match o with Some s => JStr s | None => JNull end.
@@ -55,8 +71,20 @@ Definition optfield (k : string) (o : option json) : list (string * json) :=
 Definition enc_deco (d : decorator) : json :=
   JObj [("value", enc_aval (d_value d)); ("lineno", enc_optz (d_lineno d)); ("endlineno", enc_optz (d_endlineno d))].
 
+Definition opt_aval (a : aval) : option json := match a with ANone => None | _ => Some (enc_aval a) end.
+
+Definition enc_element (a : aval) (d : string) : list (string * json) :=
+  [("annotation", enc_aval a); ("description", JStr d)].
+
+Definition enc_item (i : item) : json :=
+  match i with
+  | IPlain a d => JObj (enc_element a d)
+  | INamed n a d v => JObj ([("name", JStr n)] ++ enc_element a d ++ optfield "value" (opt_aval v))
+  | IExample k t => JArr [JStr k; JStr t]
+  end.
+
 Definition enc_secvalue (v : secvalue) : json :=
-  match v with SVText s => JStr s | SVItems l => JArr l | SVElem f => JObj f end.
+  match v with SVText s => JStr s | SVItems l => JArr (map enc_item l) | SVElem a d => JObj (enc_element a d) end.
 
 (* `if self.title:` -- None and "" are both omitted *)
 Definition truthy_title (o : option string) : option json :=
@@ -78,8 +106,6 @@ Definition enc_fpath (f : fpath) : json :=
 
 Definition kind_name (k : kindspec) : string :=
   match k with KModule => "module" | KClass _ _ => "class" | KFunction _ _ _ => "function" | KAttribute _ _ => "attribute" end.
-
-Definition opt_aval (a : aval) : option json := match a with ANone => None | _ => Some (enc_aval a) end.
 
 Definition enc_spec (k : kindspec) : list (string * json) :=
   match k with
@@ -111,22 +137,49 @@ Fixpoint enc_full (t : obj) : json :=
 
 (* ---------- which trees a load from disk can produce (domain of the theorems) ---------- *)
 
-Definition deco_ok (d : decorator) : bool := match d_lineno d with Some _ => true | None => false end.
-Definition section_ok (s : section) : bool := str_in (sec_kind s) enc_section_kinds.
+Definition aval_ok (a : aval) : bool :=
+  match a with AExpr cls vals => fval_ok (FExpr cls vals) | ARaw _ | AObject => false | _ => true end.
+
+Definition deco_ok (d : decorator) : bool := match d_lineno d with Some _ => true | None => false end && aval_ok (d_value d).
+
+Definition item_matches (k : skind) (i : item) : bool :=
+  match k, i with
+  | SKPlain, IPlain a _ => aval_ok a
+  | SKNamed, INamed _ a _ v => aval_ok a && aval_ok v
+  | SKExamples, IExample _ _ => true
+  | _, _ => false
+  end.
+
+Definition secvalue_matches (k : skind) (v : secvalue) : bool :=
+  match k, v with
+  | SKText, SVText _ => true
+  | SKOne, SVElem a _ => aval_ok a
+  | SKPlain, SVItems l | SKNamed, SVItems l | SKExamples, SVItems l => forallb (item_matches k) l
+  | _, _ => false
+  end.
+
+(* the section's kind has a row in the table regenerated from docstrings/models.py and its value has that row's shape *)
+Definition section_ok (s : section) : bool :=
+  match lookup (sec_kind s) section_table with
+  | Some k => secvalue_matches k (sec_value s)
+  | None => false
+  end.
 Definition doc_ok (d : docstring) : bool := forallb section_ok (ds_parsed d).
 Definition optdoc_ok (d : option docstring) : bool := match d with Some d => doc_ok d | None => true end.
 Definition param_ok (p : parameter) : bool :=
-  match p_kind p with Some k => str_in k enc_parameter_kinds | None => false end && optdoc_ok (p_doc p).
+  match p_kind p with Some k => str_in k enc_parameter_kinds | None => false end && optdoc_ok (p_doc p)
+  && aval_ok (p_annotation p) && aval_ok (p_default p).
 Definition spec_ok (k : kindspec) : bool :=
   match k with
   | KModule => true
-  | KClass _ decos => forallb deco_ok decos
-  | KFunction decos params _ => forallb deco_ok decos && forallb param_ok params
-  | KAttribute _ _ => true
+  | KClass bases decos => forallb aval_ok bases && forallb deco_ok decos
+  | KFunction decos params returns => forallb deco_ok decos && forallb param_ok params && aval_ok returns
+  | KAttribute value annotation => aval_ok value && aval_ok annotation
   end.
 
-(* loadable: decorators carry a line number, parameters a kind of the enumeration, section kinds are enumeration values,
-   and the module has a file path (builtin modules, filepath None, are not "loaded from files on disk"). *)
+(* loadable: decorators carry a line number, parameters a kind of the enumeration, sections a kind and a value shape of the
+   section table, expressions the fields of their class (Gen/C09_exprs.v), and the module has a file path (builtin modules,
+   filepath None, are not "loaded from files on disk"). *)
 Fixpoint loadable (t : obj) : bool :=
   match t with
   | OAlias _ _ _ _ _ => true
@@ -135,17 +188,47 @@ Fixpoint loadable (t : obj) : bool :=
       && forallb (fun nm => loadable (snd nm)) members
   end.
 
+(* json.dumps raises TypeError ("Object of type ... is not JSON serializable") when an object without encoding rule is
+   reached; the place the loaders can leave one: a parameter default (inspector._convert_parameter); annotations
+   (parameter, return, property) are looked at as well (they held objects until fix 4debb62) *)
+Definition is_object (a : aval) : bool := match a with AObject => true | _ => false end.
+Definition spec_has_object (k : kindspec) : bool :=
+  match k with
+  | KFunction _ params returns => existsb (fun p => is_object (p_annotation p) || is_object (p_default p)) params || is_object returns
+  | KAttribute _ annotation => is_object annotation
+  | _ => false
+  end.
+Fixpoint has_object (t : obj) : bool :=
+  match t with
+  | OAlias _ _ _ _ _ => false
+  | OObj spec _ _ _ _ _ _ _ _ _ members => spec_has_object spec || existsb (fun nm => has_object (snd nm)) members
+  end.
+
 (* ---------- the shape grammar of encoder output ----------
    (the former known gaps C09-F1..F5 were repaired on the schema side; the grammar describes everything the encoder emits) *)
 
 Definition sh_opt_int : shape := ShUnion [ShInt; ShNull].
-Definition sh_annotation : shape := ShUnion [ShNull; ShStr; ShMap ShAny].
+Definition sh_annotation : shape := ShUnion [ShNull; ShStr; ShRef expr_nt].
 Definition sh_lits (l : list string) : shape := ShUnion (map ShLit l).
 
-Definition sh_section : shape :=
-  ShObj [("kind", (true, sh_lits enc_section_kinds));
-         ("value", (true, ShUnion [ShStr; ShArr ShAny; ShMap ShAny]));
-         ("title", (false, ShStr))].
+Definition sh_plain : shape := ShObj [("annotation", (true, sh_annotation)); ("description", (true, ShStr))].
+Definition sh_named : shape :=
+  ShObj [("name", (true, ShStr)); ("annotation", (true, sh_annotation)); ("description", (true, ShStr));
+         ("value", (false, ShUnion [ShStr; ShRef expr_nt]))].
+
+Definition sh_secvalue (k : skind) : shape :=
+  match k with
+  | SKText => ShStr
+  | SKPlain => ShArr sh_plain
+  | SKNamed => ShArr sh_named
+  | SKExamples => ShArr (ShArr ShStr)
+  | SKOne => sh_plain
+  end.
+
+Definition sh_section_row (row : string * skind) : shape :=
+  ShObj [("kind", (true, ShLit (fst row))); ("value", (true, sh_secvalue (snd row))); ("title", (false, ShStr))].
+
+Definition sh_section : shape := ShUnion (map sh_section_row section_table).
 
 Definition sh_docstring : shape :=
   ShObj [("value", (true, ShStr)); ("lineno", (true, sh_opt_int)); ("endlineno", (true, sh_opt_int));
@@ -179,10 +262,11 @@ Definition sh_spec (k : string) : list (string * (bool * shape)) :=
 Definition sh_object (k : string) : shape := ShObj (sh_common k ++ sh_spec k).
 
 Definition G_enc : grammar :=
-  [("object", ShUnion [sh_alias; sh_object "module"; sh_object "class"; sh_object "function"; sh_object "attribute"])].
+  [("object", ShUnion [sh_alias; sh_object "module"; sh_object "class"; sh_object "function"; sh_object "attribute"]);
+   (expr_nt, sh_expression)].
 
 Definition root_nt : string := "object".
-Definition incl_fuel : nat := 40.
+Definition incl_fuel : nat := 60.
 
 (* the inclusion check of the grammar in the published schema *)
 Definition grammar_in_schema : bool :=
@@ -247,7 +331,9 @@ Definition aval_of (s : sexp) : option aval :=
   match s with
   | SList [SStr "none"] => Some ANone
   | SList [SStr "str"; SStr x] => Some (AStr x)
-  | SList [SStr "expr"; e] => option_map AExpr (as_jobj e)
+  | SList [SStr "expr"; e] => match fval_of e with Some (FExpr cls vals) => Some (AExpr cls vals) | _ => None end
+  | SList [SStr "raw"; j] => option_map ARaw (json_of j)
+  | SList [SStr "object"] => Some AObject
   | _ => None
   end.
 
@@ -257,11 +343,19 @@ Definition deco_of (s : sexp) : option decorator :=
   | _ => None
   end.
 
+Definition item_of (s : sexp) : option item :=
+  match s with
+  | SList [SStr "plain"; a; SStr d] => do a' <- aval_of a; Some (IPlain a' d)
+  | SList [SStr "named"; SStr n; a; SStr d; v] => do a' <- aval_of a; do v' <- aval_of v; Some (INamed n a' d v')
+  | SList [SStr "example"; SStr k; SStr t] => Some (IExample k t)
+  | _ => None
+  end.
+
 Definition secvalue_of (s : sexp) : option secvalue :=
   match s with
   | SList [SStr "text"; SStr x] => Some (SVText x)
-  | SList [SStr "items"; l] => match json_of l with Some (JArr l') => Some (SVItems l') | _ => None end
-  | SList [SStr "elem"; e] => option_map SVElem (as_jobj e)
+  | SList [SStr "items"; l] => option_map SVItems (as_list_of item_of l)
+  | SList [SStr "elem"; a; SStr d] => do a' <- aval_of a; Some (SVElem a' d)
   | _ => None
   end.
 
